@@ -79,6 +79,11 @@ def run(tier, seed):
                                              "--keys", "2", "--rounds", "5", "--pers", "1", "--blocks", str(rng.choice([26, 40])),
                                              "--cache", str(i % 2), "--cpus", "4"]))
 
+    for i in range(max(4, n // 2)):   # flush() callers racing with transiently failing record batches (scrub + release)
+        jobs.append(("storm%d" % i, "conc", ["--mode", "storm", "--seed", str(rng.randrange(1 << 30)), "--rounds", "60",
+                                              "--flushers", str(3 + i % 3), "--fails", str([3, 3, 3, 4][i % 4]), "--cache", str(i % 2),
+                                              "--cpus", str([16, 8, 16, 4][i % 4])]))
+
     def one(job):
         tag, sub, args = job
         d = os.path.join(shm, tag)
